@@ -223,8 +223,30 @@ static void rt() {
   static bool ready = false;
   if (ready)
     return;
+  // Galois sizes its pool from Cpus_allowed_list; a worker is re-created for
+  // every BFS level, and 16 pool threads (ASan stacks, 2 MiB of per-thread
+  // storage each) would dominate the run time.  Narrow the affinity mask to 4
+  // CPUs while the topology is read and the pool is built, then restore it;
+  // nothing below depends on the thread count beyond ACTIVE.
+  cpu_set_t all, few;
+  bool narrowed = false;
+  if (sched_getaffinity(0, sizeof all, &all) == 0) {
+    CPU_ZERO(&few);
+    int got = 0;
+    for (int cpu = 0; cpu < CPU_SETSIZE && got < 4; ++cpu)
+      if (CPU_ISSET(cpu, &all)) {
+        CPU_SET(cpu, &few);
+        ++got;
+      }
+    narrowed = got == 4 && sched_setaffinity(0, sizeof few, &few) == 0;
+  }
   static galois::SharedMemSys* G = new galois::SharedMemSys();
   (void)G;
+  if (narrowed) { // every pool thread inherited the narrow mask
+    galois::setActiveThreads(gs::getThreadPool().getMaxThreads());
+    galois::on_each(
+        [&](unsigned, unsigned) { sched_setaffinity(0, sizeof all, &all); });
+  }
   galois::setActiveThreads(ACTIVE);
   auto& tp = gs::getThreadPool();
   g_maxT   = tp.getMaxThreads();
